@@ -363,9 +363,11 @@ func init() {
 		Units: []string{"fasthttputil.(*PipeConns)", "fasthttputil.(*pipeConn)", "fasthttputil.NewPipeConns", "fasthttputil.acquireByteBuffer", "fasthttputil.releaseByteBuffer", "fasthttputil.(*InmemoryListener)", "fasthttputil.NewInmemoryListener"},
 		Runs: []Run{
 			{Pkg: "fasthttputil", Func: "vhC33PipeStream", Quick: map[string]int{"writes": 2, "writeLen": 3}, Thorough: map[string]int{"writes": 3, "writeLen": 4}},
+			{Pkg: "fasthttputil", Func: "vhC33ReadTimeout", Quick: map[string]int{"writes": 3, "writeLen": 3}, Thorough: map[string]int{"writes": 4, "writeLen": 3}, NoNative: true},
 			{Pkg: "fasthttputil", Func: "vhC33Listener", NoNative: true},
 		},
 		Assume: []string{
+			"vhC33ReadTimeout: an optional first chunk of ≤ 2 arbitrary bytes read completely, then one or two Reads that time out on the idle pipe (read deadline already past, or 10 ms of virtual time), the deadline cleared, then `writes` chunks of ≤ writeLen arbitrary bytes each optionally followed by one Read of 1..2 bytes, Close and drain: the reader gets exactly the bytes written, in order, then EOF; the chunk buffers go through the modelled sync.Pool (Get returns the most recently Put object), so a buffer released twice is handed to two owners; not re-run natively (virtual clock)",
 			"PipeConns half only, sequential histories: up to `writes` writes of ≤ writeLen arbitrary bytes on one end (either direction), optionally interleaved with reads of buffer size 1 or 8 on the other end, then Close of the writing end, drain with 4-byte reads, and a write after Close; channels and sync.Pool run on the engine's scheduler",
 			"listener (vhC33Listener): one or two dialer goroutines, an accepter loop and a Close issued after 0..3 scheduler rounds, on the engine's cooperative scheduler (switch points: blocking channel operations and explicit yields; a select with several ready cases explores each); choices only, not re-run natively",
 			"concurrent writers/readers on one pipe end, deadlines and closing the reading end first are outside this check",
